@@ -136,6 +136,9 @@ func strictReqSpec() []byte {
 		"/bform":  map[string]any{"post": map[string]any{"operationId": "bform", "requestBody": body(map[string]any{"application/x-www-form-urlencoded": obj}), "responses": ok}},
 		"/btext":  map[string]any{"post": map[string]any{"operationId": "btext", "requestBody": body(map[string]any{"text/plain": map[string]any{"type": "string"}}), "responses": ok}},
 		"/bmulti": map[string]any{"post": map[string]any{"operationId": "bmulti", "requestBody": body(map[string]any{"multipart/form-data": obj}), "responses": ok}},
+		// multipart bodies other than form-data: the handler gets a reader over the parts all the same
+		"/bmprel": map[string]any{"post": map[string]any{"operationId": "bmprel", "requestBody": body(map[string]any{"multipart/related": obj}), "responses": ok}},
+		"/bmpmix": map[string]any{"post": map[string]any{"operationId": "bmpmix", "requestBody": body(map[string]any{"multipart/mixed": obj}), "responses": ok}},
 		"/bother": map[string]any{"post": map[string]any{"operationId": "bother", "requestBody": body(map[string]any{"application/octet-stream": map[string]any{"type": "string", "format": "binary"}}), "responses": ok}},
 		// an OPTIONAL JSON body (requestBody.required absent): a body that is sent is decoded all the same
 		"/bopt":    map[string]any{"post": map[string]any{"operationId": "bopt", "requestBody": map[string]any{"content": map[string]any{"application/json": map[string]any{"schema": obj}}}, "responses": ok}},
@@ -372,6 +375,8 @@ func runC12(r *Report, rng *rand.Rand, thorough bool) {
 		{"bform", "application/x-www-form-urlencoded", "a=a+b%26c&n=3", []string{"application/x-www-form-urlencoded"}, "Body", map[string]any{"a": "a b&c", "n": 3}, "", false, false},
 		{"btext", "text/plain", "plain ü", []string{"text/plain"}, "Body", "plain ü", "", false, false},
 		{"bmulti", mpCT, mpBody, []string{"multipart/form-data"}, "Body", map[string]any{"$multipart": []any{map[string]any{"name": "a", "value": "x"}, map[string]any{"name": "n", "value": "3"}}}, "", false, false},
+		{"bmprel", strings.Replace(mpCT, "multipart/form-data", "multipart/related", 1), mpBody, []string{"multipart/related"}, "Body", map[string]any{"$multipart": []any{map[string]any{"name": "a", "value": "x"}, map[string]any{"name": "n", "value": "3"}}}, "", false, false},
+		{"bmpmix", strings.Replace(mpCT, "multipart/form-data", "multipart/mixed", 1), mpBody, []string{"multipart/mixed"}, "Body", map[string]any{"$multipart": []any{map[string]any{"name": "a", "value": "x"}, map[string]any{"name": "n", "value": "3"}}}, "", false, false},
 		{"bother", "application/octet-stream", "rawbytes", []string{"application/octet-stream"}, "Body", map[string]any{"$reader": "rawbytes"}, "", false, false},
 		{"bmany", "application/json", `{"a":"j"}`, []string{"application/json", "application/x-www-form-urlencoded", "text/plain"}, "JSONBody", map[string]any{"a": "j"}, "", false, false},
 		{"bmany", "application/x-www-form-urlencoded", "a=f", []string{"application/json", "application/x-www-form-urlencoded", "text/plain"}, "FormdataBody", map[string]any{"a": "f"}, "", false, false},
@@ -635,5 +640,5 @@ func runC12(r *Report, rng *rand.Rand, thorough bool) {
 	vcases.WriteTo(r)
 	bcases.WriteTo(r)
 	r.Exhaustive = true
-	r.Rule = "response cells: media type {application/json, vendor +json, text/plain, form, multipart/form-data, multipart/related, octet-stream, image/* (wildcard), application/*+json (tagged wildcard), no content} x status {200, 4XX, default} x headers {none, two} x {inline, component reference}, plus JSON bodies whose schema is a reference to a component with additionalProperties: true (additional members supplied by the handler), each returned by a recording strict handler of each of the 7 frameworks with generated values (and with / without a strict middleware); observed status, Content-Type, headers and body vs the declaration and vs the model in Coq; handler error -> error path; request side: JSON (+charset), vendor +json on POST and merge-patch+json on PATCH, malformed JSON documents (rejected with 400), bodies arriving with chunked transfer encoding, form, text, multipart, octet-stream and multi-body operations x Content-Types incl. undeclared, path/query/header parameters in the request object; non-trivial = not the plain JSON 200 cell"
+	r.Rule = "response cells: media type {application/json, vendor +json, text/plain, form, multipart/form-data, multipart/related, octet-stream, image/* (wildcard), application/*+json (tagged wildcard), no content} x status {200, 4XX, default} x headers {none, two} x {inline, component reference}, plus JSON bodies whose schema is a reference to a component with additionalProperties: true (additional members supplied by the handler), each returned by a recording strict handler of each of the 7 frameworks with generated values (and with / without a strict middleware); observed status, Content-Type, headers and body vs the declaration and vs the model in Coq; handler error -> error path; request side: JSON (+charset), vendor +json on POST and merge-patch+json on PATCH, malformed JSON documents (rejected with 400), bodies arriving with chunked transfer encoding, form, text, multipart (form-data, related, mixed), octet-stream and multi-body operations x Content-Types incl. undeclared, path/query/header parameters in the request object; non-trivial = not the plain JSON 200 cell"
 }
